@@ -57,13 +57,45 @@ def parseOptVal (s : String) : Option (Option Val) :=
 def parseBool (s : String) : Option Bool :=
   if s = "true" then some true else if s = "false" then some false else none
 
+/-- a maximal run of at least this many entries with consecutive keys and one value is written `a..b=v` in a sorted listing
+    (`runMin` of harness/c14/obj_test.go; a lossless abbreviation for the listings of tables with 1025, 2048 … entries) -/
+def runMin : Nat := 8
+
 def parseList (s : String) : Option Entries :=
-  -- "[k=v,k=v]"
+  -- "[k=v,k=v,a..b=v]"
   let inner := ((s.drop 1).dropEnd 1).toString
   if inner = "" then some [] else
-    (inner.splitOn ",").mapM fun e => match e.splitOn "=" with
-      | [k, v] => do some ((← k.toNat?), (← parseVal v))
-      | _ => none
+    ((inner.splitOn ",").mapM fun (e : String) => match e.splitOn "=" with
+      | [k, v] =>
+        match k.splitOn ".." with
+        | [a, b] => do
+          let a ← a.toNat?
+          let b ← b.toNat?
+          let v ← parseVal v
+          some ((List.range (b + 1 - a)).map (fun i => (a + i, v)))
+        | _ => do some [((← k.toNat?), (← parseVal v))]
+      | _ => (none : Option Entries)).map List.flatten
+
+/-- `fill:<n>:<base>:<v>` is the harness' abbreviation of n calls of `Store` (keys base … base+n-1, one value) made one after
+    the other by one thread: in a history the token pair `c<t>:fill:… r<t>:-` stands for the n pairs `c<t>:store:k:v r<t>:-`. -/
+def fillStores (o : String) : Option (List String) :=
+  match o.splitOn ":" with
+  | ["fill", n, base, v] => do
+    let n ← n.toNat?
+    let base ← base.toNat?
+    some ((List.range n).map (fun i => s!"store:{base + i}:{v}"))
+  | _ => none
+
+def expandFillToks : List String → List String
+  | c :: r :: rest =>
+    let cs := c.splitOn ":"
+    match cs.head?, fillStores (":".intercalate (cs.drop 1)) with
+    | some t, some stores =>
+      if c.startsWith "c" && r == s!"r{t.drop 1}:-" then
+        stores.flatMap (fun st => [s!"{t}:{st}", r]) ++ expandFillToks rest
+      else c :: expandFillToks (r :: rest)
+    | _, _ => c :: expandFillToks (r :: rest)
+  | l => l
 
 def dropPrefix (s p : String) : Option String :=
   if s.startsWith p then some (s.drop p.length).toString else none
@@ -113,7 +145,7 @@ def rereadOf (t : String) : Option (Option Val × Option Val × String) :=
   | _ => none
 
 def judgeLine (line : String) : String :=
-  let toks0 := words (historyPart line)
+  let toks0 := expandFillToks (words (historyPart line))
   let stale := toks0.find? (fun t => match rereadOf t with
     | some (a, b, _) => !cbCurrent a b
     | none => false)
@@ -165,7 +197,22 @@ def judgeLine (line : String) : String :=
 
 def fmtVal (v : Val) : String := if v.vu = 0 then toString v.id else s!"{v.id}@{v.vu}"
 def fmtOpt : Option Val → String | none => "nil" | some v => fmtVal v
-def fmtList (l : Entries) : String := "[" ++ ",".intercalate (l.map (fun e => s!"{e.1}={fmtVal e.2}")) ++ "]"
+/-- length of the longest prefix of `l` that continues a run (keys consecutive after `k`, value `v`) -/
+def runLen (k : Nat) (v : Val) : Entries → Nat
+  | (k', v') :: t => if k' = k + 1 && v' == v then runLen k' v t + 1 else 0
+  | [] => 0
+
+def fmtEntries : Nat → Entries → List String
+  | 0, _ => []
+  | _, [] => []
+  | fuel + 1, (k, v) :: t =>
+    let n := runLen k v t
+    if n + 1 ≥ runMin then s!"{k}..{k + n}={fmtVal v}" :: fmtEntries fuel (t.drop n)
+    else s!"{k}={fmtVal v}" :: fmtEntries fuel t
+
+/-- a listing; `runs`: the listing is sorted by key and written with runs abbreviated (`d=`), see `runMin` -/
+def fmtList (l : Entries) (runs : Bool := false) : String :=
+  "[" ++ ",".intercalate (if runs then fmtEntries (l.length + 1) l else l.map (fun e => s!"{e.1}={fmtVal e.2}")) ++ "]"
 
 def fmtRes : Res → String
   | .unit => "-"
@@ -174,7 +221,7 @@ def fmtRes : Res → String
   | .stored v b => s!"a={fmtVal v}/{b}"
   | .storedCb v b a => s!"a={fmtVal v}/{b}/cb={fmtOpt a}"
   | .num n => s!"n={n}"
-  | .dump l => s!"d={fmtList l}"
+  | .dump l => s!"d={fmtList l true}"
   | .visits l => s!"w={fmtList l}"
 
 structure Prog where
@@ -191,7 +238,7 @@ def expandOp (o : String) : List String :=
   | ["hold", k, id] => [s!"los:{k}:{id}", s!"delete:{k}"]
   | ["copy", k] => [s!"load:{k}"]
   | ["code", k] => [s!"load:{k}"]
-  | _ => [o]
+  | _ => (fillStores o).getD [o]
 
 def splitOps (s : String) : List String := if s = "-" || s = "" then [] else (s.splitOn ",").flatMap expandOp
 
@@ -286,6 +333,7 @@ def stateKey (r : RState) : String :=
   toString (repr (r.d, r.ths.map (fun th => (th.ops, th.cur)), r.out.length))
 
 def dedup (rs : List RState) : List RState :=
+  if rs.length ≤ 1 then rs else       -- nothing to remove (and no rendering of a table of 2048 entries)
   (rs.foldl (fun (acc : List String × List RState) r =>
     let k := stateKey r
     if acc.1.contains k then acc else (k :: acc.1, r :: acc.2)) ([], [])).2.reverse
@@ -301,8 +349,11 @@ partial def runSeq (r : RState) (idx tid : Nat) (keys : List Nat) : List RState 
     | [] => done.reverse
     | _ =>
       let fin := front.filter finished
-      let next := (dedup ((front.filter (fun r => !finished r)).flatMap (fun r => stepThread r idx tid keys))).filter
-        (fun r => !seen.contains (stateKey r))
+      let raw := (front.filter (fun r => !finished r)).flatMap (fun r => stepThread r idx tid keys)
+      -- a deterministic stretch (one state, one successor: plain map operations, e.g. the stores of a `fill`) makes progress
+      -- with every step and cannot lead back: the states are not rendered and remembered
+      if front.length ≤ 1 && raw.length ≤ 1 then go raw seen (fin.reverse ++ done) else
+      let next := (dedup raw).filter (fun r => !seen.contains (stateKey r))
       go next (next.map stateKey ++ seen) (fin.reverse ++ done)
   match r.ths[idx]? with
   | none => []
@@ -323,7 +374,7 @@ def modelLine (line : String) : String :=
       let keys := keysOfProg p
       let nth := p.threads.length
       -- thread table: user threads, then index nth = the sequential phase thread (id 9)
-      let r0 : RState := { d := { data := [], now := 0 }, ths := p.threads.map (fun o => { ops := o }) ++ [{ ops := p.pre }], out := [], want := words hist }
+      let r0 : RState := { d := { data := [], now := 0 }, ths := p.threads.map (fun o => { ops := o }) ++ [{ ops := p.pre }], out := [], want := expandFillToks (words hist) }
       let afterPre := runSeq r0 nth 9 keys
       let afterSched := sched.foldl (fun rs t => dedup (rs.flatMap (fun r => stepThread r t t keys))) afterPre
       let afterPost := afterSched.flatMap (fun r =>
@@ -332,7 +383,7 @@ def modelLine (line : String) : String :=
       else
         -- report how far the best branch got
         let best := (afterPre ++ afterSched ++ afterPost).foldl (fun b r => if r.out.length > b then r.out.length else b) 0
-        s!"differs after {best} tokens: implementation continues with `{" ".intercalate ((words hist).drop best |>.take 3)}`"
+        s!"differs after {best} tokens: implementation continues with `{" ".intercalate ((expandFillToks (words hist)).drop best |>.take 3)}`"
     | _, _ => "bad-op"
   | _ => "bad-op"
 
